@@ -22,6 +22,13 @@ _CS_BRIDGE_MODULES = ["CantoVerif.Bridge.CoinswapFormulas", "CantoVerif.Bridge.C
 _CS_BRIDGE = (bridge_theorems("Bridge/CoinswapFormulas.lean", "CV.Bridge.Coinswap")
               + bridge_theorems("Bridge/CoinswapFacts.lean", "CV.Bridge.CoinswapFacts"))
 
+# the statement lists of the message-server functions (validation order, response building) concern only C08's
+# "response equals the balance changes" clause; every other regenerated fact concerns all four coinswap properties
+_CS_BRIDGE_CORE = [t for t in _CS_BRIDGE if not re.search(r"\.msg\w+_stmts$", t)]
+
+# statement-text facts are search triggers (they widen the correspondence run), guards / calls / formulas are obligations
+_CS_TRIGGERS = [r"_stmts$"]
+
 _CS_ASSUME = ["EnvOK: GetReservePoolAddr has no collisions on the denominations in play and never yields the module or fee-collector account",
               "signers are not pool escrow addresses",
               "SDK bank keeper behaves as Bank.applyAll (validated on every operation of the run)"]
@@ -36,28 +43,28 @@ PROPS = {
             "CV.Coinswap.trade_k", "CV.Coinswap.remove_le_prorata", "CV.Coinswap.add_then_remove_le",
             "CV.Coinswap.roundtrip_le", "CV.Arith.sell_k", "CV.Arith.buy_k", "CV.Arith.add_k", "CV.Arith.remove_k",
             "CV.Arith.k_trans", "CV.Bank.applyAll_flow",
-        ] + _CS_BRIDGE,
-        comps={"outcome", "bank", "pools"},
+        ] + _CS_BRIDGE_CORE,
+        comps={"outcome", "bank", "pools"}, triggers=_CS_TRIGGERS,
         assumptions=_CS_ASSUME,
     ),
     "C02": dict(
         suite="coinswap", modules=["CantoVerif.Props.C02"] + _CS_BRIDGE_MODULES,
         theorems=["CV.Coinswap.rejected_unchanged", "CV.Coinswap.swap_conserves", "CV.Coinswap.remove_conserves",
                   "CV.Coinswap.add_conserves", "CV.group_flow", "CV.within_conserves", "CV.Bank.applyAll_flow",
-                  "CV.deliver_rejected_unchanged", "CV.Coinswap.poolTax_ok", "CV.total_supply_inv"] + _CS_BRIDGE,
-        comps={"outcome", "bank", "pools"}, assumptions=_CS_ASSUME),
+                  "CV.deliver_rejected_unchanged", "CV.Coinswap.poolTax_ok", "CV.total_supply_inv"] + _CS_BRIDGE_CORE,
+        comps={"outcome", "bank", "pools"}, triggers=_CS_TRIGGERS, assumptions=_CS_ASSUME),
     "C08": dict(
         suite="coinswap", modules=["CantoVerif.Props.C08"] + _CS_BRIDGE_MODULES,
         theorems=["CV.Coinswap.deadline_respected", "CV.Coinswap.notPast_of_not_pastDeadline", "CV.Coinswap.sell_exact_in_min_out",
                   "CV.Coinswap.buy_exact_out_max_in", "CV.Coinswap.add_bounds", "CV.Coinswap.remove_bounds",
                   "CV.Coinswap.sell_bound_tight", "CV.Coinswap.inputPrice_ok", "CV.Coinswap.outputPrice_ok",
                   "CV.Coinswap.addLiveAmounts_ok", "CV.Coinswap.removeAmounts_ok"] + _CS_BRIDGE,
-        comps={"outcome", "bank", "resp"}, assumptions=_CS_ASSUME),
+        comps={"outcome", "bank", "resp"}, triggers=_CS_TRIGGERS, assumptions=_CS_ASSUME),
     "C09": dict(
         suite="coinswap", modules=["CantoVerif.Props.C09"] + _CS_BRIDGE_MODULES,
         theorems=["CV.Coinswap.swap_caps", "CV.Coinswap.no_module_recipient", "CV.Coinswap.blocked_any_form",
-                  "CV.Coinswap.add_caps", "CV.Coinswap.pools_against_standard", "CV.Coinswap.wf_step", "CV.Coinswap.quoteLeg_fst"] + _CS_BRIDGE,
-        comps={"outcome", "bank"}, assumptions=_CS_ASSUME),
+                  "CV.Coinswap.add_caps", "CV.Coinswap.pools_against_standard", "CV.Coinswap.wf_step", "CV.Coinswap.quoteLeg_fst"] + _CS_BRIDGE_CORE,
+        comps={"outcome", "bank"}, triggers=_CS_TRIGGERS, assumptions=_CS_ASSUME),
 }
 
 TEXT = {
